@@ -15,7 +15,8 @@ RULE = (
     "labelled nodes (cyclic included) x all 8 subsets x 15 operations, plus random ADMGs n=4..8 with hostile "
     "classes (isolated, bidirected-only nodes, bows, chains), two insertion orders each, plus 30-step call "
     "histories on one shared graph object with an aliasing probe (the harness mutates every returned graph and "
-    "re-compares the receiver). Arguments stay inside the documented domain (S subset of V; sources and targets "
+    "re-compares the receiver; acyclic graphs are additionally edited IN PLACE between calls - add/remove an edge, add a "
+    "node - so that a stale per-object cache would answer for the old graph). Arguments stay inside the documented domain (S subset of V; sources and targets "
     "disjoint). non-trivial = graph has >=1 edge and S is a non-empty proper subset (or the op takes no set); "
     "distinct by (canonical graph, op, S)."
 )
@@ -127,12 +128,19 @@ def apply_ops(ctx, gd, S_names, acyclic, alias=False, ops=None):
     # directed paths: S -> complement subsets
     rest = sorted(n for n in gd["nodes"] if n not in S_names)
     if S and rest:
-        T = _vars(rest[: max(1, len(rest) // 2 + 1)])
-        run("get_nodes_in_directed_paths", lambda: get_nodes_in_directed_paths(g, set(S), T))
+        # every non-empty target set inside the complement for small graphs (a node of a dead-end cycle must be
+        # *outside* the targets to tell walks from paths), the single nodes and one larger set otherwise
+        if len(rest) <= 3:
+            targets = [list(t) for t in gg.subsets(rest) if t]
+        else:
+            targets = [[r] for r in rest[:3]] + [rest[: max(1, len(rest) // 2 + 1)]]
+        for tnames in targets:
+            T = _vars(tnames)
+            run("get_nodes_in_directed_paths", lambda T=T: get_nodes_in_directed_paths(g, set(S), T))
     return out
 
 
-def _history(ctx, gd, rng, steps):
+def _history(ctx, gd, rng, steps, edits=True):
     """One shared graph object, many operations; every post-condition re-checks the receiver,
     the harness mutates results (aliasing probe)."""
     from y0.graph import get_nodes_in_directed_paths
@@ -158,6 +166,13 @@ def _history(ctx, gd, rng, steps):
         if res is not None:
             _probe_alias(g, res, op)
         ctx.case(f"H|{gg.key(gd)}|{op}|{sorted(map(str, S))}", bool(gd["di"] or gd["bi"]) and bool(S))
+        if edits and rng.random() < 0.25 and gg._acyclic(gd["nodes"], gd["di"]):
+            # the caller edits its own graph object in place: later results must reflect the edited graph
+            if freeze_graph(g) != fz0:
+                kernel.violation(PROP, "receiver-unchanged", "graph changed over a call history")
+            gd = gg.edit_inplace(g, gd, rng)
+            nodes = gd["nodes"]
+            fz0 = freeze_graph(g)
     if freeze_graph(g) != fz0:
         kernel.violation(PROP, "receiver-unchanged", "graph changed over a call history")
 
